@@ -164,6 +164,15 @@ class PairWorld(WsWorld):
                 "mem_level": ch.pick((None, 1, 8, 9), "r.mem"),
             }
             offer = C.PerMessageDeflateOffer(**o)
+            # a decompression size limit on either end (messages of this run then stay within it: the limit itself is
+            # C16's business; here it must not disturb lossless transport of what fits)
+            mms = cfg["mms"] = ch.pick((None, 1024, 4096, 200000), "max-message-size", (5, 1.5, 1, 1))
+            if mms:
+                which = ch.pick(("both", "server", "client"), "mms-side")
+                if which in ("both", "server"):
+                    a["max_message_size"] = mms
+                if which in ("both", "client"):
+                    r["max_message_size"] = mms
 
             def s_accept(offers):
                 for of in offers:
@@ -238,6 +247,9 @@ class PairWorld(WsWorld):
                 L = 300
             if L > budget:
                 L = 50
+            mms = self.cfg.get("mms")
+            if mms and L > mms:
+                L = mms - ch.choose(120, "below-mms")
             budget -= L
             plan.append({"len": L, "kind": kind, "api": api, "fragsize": fs, "dnc": ch.flag("doNotCompress", 0.2),
                          "binary": ch.flag("binary", 0.7), "token": "%s%d" % (ep.name, i),
